@@ -7,6 +7,7 @@ cfg keys
                'd'  add_dependency           'pd' positional + add_dependency (parallel edges)
                'l'  add_dependency(i, lit); add_dependency(lit, j)
                'la' add_dependency(i, lit); lit is a positional argument of j
+               'll' dependency routed through a chain of two adjacent literals
   hub        optional (preds, succs, as_arg): ONE literal shared by several
              predecessors and successors (exercises _prune_literal_if_trivial on
              both sides of m*n <= m+n)
@@ -89,6 +90,15 @@ class PlanHarness(e1.Harness):
                     lit = plan.lit(f"L{i}{j}")
                     plan.add_dependency(self.calls[i], lit)
                     args.append(lit)
+                if kind == "ll":
+                    # literal creation order alternates so both removal orders occur
+                    if (i + j) % 2:
+                        l1, l2 = plan.lit(f"La{i}{j}"), plan.lit(f"Lb{i}{j}")
+                    else:
+                        l2, l1 = plan.lit(f"Lb{i}{j}"), plan.lit(f"La{i}{j}")
+                    plan.add_dependency(self.calls[i], l1)
+                    plan.add_dependency(l1, l2)
+                    deps.append(l2)
             if hub and j in hub[1]:
                 if hub[2]:
                     args.append(hub_lit)
@@ -117,6 +127,11 @@ class PlanHarness(e1.Harness):
         elif out == "nested":
             self.output = {"a": [self.calls[-1]], "b": (self.calls[0], 7)}
             self.needed = {n - 1, 0}
+        elif isinstance(out, dict) and "litdep" in out:
+            # the requested output is a bare plan Literal that depends on call k
+            lit = plan.lit("OUT")
+            plan.add_dependency(self.calls[out["litdep"]], lit)
+            self.output, self.needed = lit, {out["litdep"]}
         elif isinstance(out, int):
             self.output, self.needed = self.calls[out], {out}
         else:
@@ -250,12 +265,14 @@ class PlanHarness(e1.Harness):
             return self.output
         if out == "nested":
             return {"a": [vals.get(self.n - 1)], "b": (vals.get(0), 7)}
+        if isinstance(out, dict):
+            return "OUT"
         if isinstance(out, int):
             return vals.get(out)
         return [vals.get(i) for i in out]
 
 
-EDGE_KINDS = ("p", "k", "d", "pd", "l", "la")
+EDGE_KINDS = ("p", "k", "d", "pd", "l", "la", "ll")
 
 
 def plan_configs(n, kinds=EDGE_KINDS):
